@@ -45,6 +45,7 @@ type bodyRun struct {
 	cellsByName map[string][]*ssa.Alloc
 	sites map[string][]ssa.CallInstruction
 	assigns map[string][]*ssa.DebugRef // assignments to a source variable, in source order
+	callCells map[string]cellRef // captured variables of the closure whose contract is being applied
 }
 
 func (br *bodyRun) namedAllocs(name string) []*ssa.Alloc {
